@@ -80,6 +80,13 @@ def finish(prop, tier, seed, jobs, by_id, info, wall, known, write=True):
     for j, v in violations:
         sig = f"{j['case']}/{v['sig']}"
         if not v.get("reproduced"):
+            if v.get("kind") == "exc":
+                # the symbolic proxy raised where the concrete run (same weights, same choices) does not: a limitation of
+                # the proxy on that path, counted inconclusive (DESIGN 2.2), never a verdict
+                tot["inconclusive"] += 1
+                if len(notes) < 20:
+                    notes.append(f"{sig}: exception under the symbolic proxy only (concrete replay with {v.get('values')} does not raise): path unsupported")
+                continue
             harness_errors.append(f"counterexample did not reproduce on the real code: {sig} values={v.get('values')}")
             continue
         k = match_known(known, prop, sig)
